@@ -24,7 +24,7 @@ ASSUMPTIONS = ["periodic axes have equal end cells (K2 excluded by construction,
 
 @st.composite
 def _case(draw):
-    P = draw(problem.problems())
+    P = draw(problem.problems(dirfield=True))
     P['theta'] = draw(st.sampled_from([1.0, 2.0, 5.0, 3.3, 7.7])) * 10.0 ** draw(st.integers(-6, 5))
     return dict(P=P, rhs_seed=draw(st.integers(0, 2 ** 31 - 1)), order_seed=draw(st.integers(0, 2 ** 31 - 1)))
 
@@ -113,6 +113,7 @@ def check(case):
     theta = P['theta']
     tag = f"{P['scheme']}:{name}"
     u = mk_face(m, P['u'])
+    uw = mk_face(m, P['uw']) if P.get('uw') is not None else None
     FL = pf.fluxLimiter(P['FL'])
 
     # ---- (i) residual identity over 1..3 steps.  The usual time loop: the SAME solution variable, the same spatial term
@@ -124,7 +125,8 @@ def check(case):
     for k in range(P['steps']):
         oldfull = np.array(phi._value, float)
         old = np.array(phi.value, float).ravel()
-        tv = pf.convectionTVDupwindRHSTerm(u, phi, FL) if P['scheme'] == 'tvd' else np.zeros(A.shape[0])
+        tv = (pf.convectionTVDupwindRHSTerm(u, phi, FL) if uw is None else pf.convectionTVDupwindRHSTerm(u, phi, FL, uw)) if P['scheme'] == 'tvd' \
+            else np.zeros(A.shape[0])
         if acv is not None and k > 0:
             alpha = alpha0 * (1.0 + 0.5 * k)
             acv.value = alpha.reshape(d)
